@@ -472,6 +472,44 @@ def _const_origin(o):
     return not mir.origin_mentions(o, lambda x: x[0] == "param")
 
 
+def r9_range_constants_exact(ctx, rule="C06.R9"):
+    """A range test `r <= (MAX as f32)` only means `r <= MAX` when MAX survives the conversion to the
+    float type: 2147483647 is not an f32 (24-bit significand), `MAX_LONG as f32` is 2147483648.0, so
+    the test lets 2147483648 through and a LONG variable holds a value outside its range.  Every
+    integer constant that a conversion or range-check function of the value / casting code converts
+    to a float type must be exactly representable in that type."""
+    import struct
+    prog = ctx.prog
+    n = 0
+    for f in sorted(prog.fns.values(), key=lambda f: f.id):
+        if f.crate not in ("rusty_linter", "rusty_variant", "rusty_basic") or f.kind == "const":
+            continue
+        for b, blk in enumerate(f.body.blocks):
+            if f.body.is_cleanup(b):
+                continue
+            for st in blk["s"]:
+                r = st.get("r", {})
+                if st["k"] != "assign" or r.get("k") != "cast" or r.get("ck") != "IntToFloat":
+                    continue
+                k = (r.get("o") or {}).get("k") or {}
+                if "int" not in k or not k.get("const_def"):
+                    continue        # only named range constants (MIN_/MAX_INTEGER, MIN_/MAX_LONG ...)
+                n += 1
+                c = k["int"]
+                ty = r.get("ty")
+                back = struct.unpack("f", struct.pack("f", float(c)))[0] if ty == "f32" else float(c)
+                name = f.path.split("::", 1)[1]
+                kk = sum(1 for x in ctx.obs if x.key.startswith("%s:%s:%s" % (rule, name, k["const_def"].split("::")[-1])))
+                ctx.decide(int(back) == c, rule,
+                           "%s:%s:%s%s" % (rule, name, k["const_def"].split("::")[-1], "#%d" % kk if kk else ""),
+                           "%s:%s" % (f.file, st.get("ln")), "%s is exact as %s" % (c, ty),
+                           "%s converts %s = %d to %s, which cannot hold it (it becomes %d): a range test against the "
+                           "converted constant accepts %d, a value outside the type's range, which is then stored"
+                           % (name, k["const_def"].split("::")[-1], c, ty, int(back), int(back)))
+    ctx.analysed_units(rule, range_constants_converted=n)
+    ctx.require(rule, 8)
+
+
 def run(ctx):
     common.install(ctx)
     T = ot.OpTables(ctx.prog)
@@ -485,3 +523,4 @@ def run(ctx):
     r7_guard_tests_converted_value(ctx)
     from . import c12
     c12.r4_by_ref_exact(ctx, T, "C06.R8")
+    r9_range_constants_exact(ctx)
